@@ -250,7 +250,7 @@ def loop_signpre():
     return {1: outer, ("begin", 1): "jpv_it++;", 2: inner}
 
 
-GHOST_SIGNPRE = {"wkdibe::sign_precomputed": [(r"^\s*return;\s*$", "before", "jpv_early = 1; jpv_k_ret = (size_t)k;")]}
+GHOST_SIGNPRE = {"wkdibe::sign_precomputed": [(r"^\s*(return|break);\s*$", "before", "jpv_early = 1; jpv_k_ret = (size_t)k;")]}
 
 
 def c_precompute():
